@@ -121,6 +121,8 @@ def core_candidates():
         out.append((sh, [], all4, "attr"))
         out.append((sh, [], ["PartialEq", "PartialOrd"], "derive"))
     out.append(("s_po", [], ["PartialOrd", "PartialEq"], "attr"))
+    out.append(("s_wo", [], ["Ord", "PartialOrd", "Eq", "PartialEq"], "attr"))
+    out.append(("s_wo", [], ["Ord", "PartialOrd", "Eq", "PartialEq"], "derive"))
     for sh in ("s_nr", "e_nr"):
         out.append((sh, [], ["PartialOrd", "PartialEq"], "attr"))
         out.append((sh, [], ["PartialEq"], "derive"))
